@@ -9,9 +9,9 @@ from .common import Driver
 from . import jsonval as J
 
 LEVEL = 'model_checking'
-BUDGET_S = {'quick': 120, 'thorough': 900}
+BUDGET_S = {'quick': 200, 'thorough': 900}
 BOUNDS = {
-    'quick': 'program SB(a)[BF(<name>)[]; SB(b, raises, caught)[]]; BF(<name2>, fails, caught); BF(o/r); SB(d)[BF(o/r) rejected, caught]: return value of one function a '
+    'quick': 'program SB(a)[BF(<name>)[]; SB(b, raises, caught)[]]; BF(<name2>, fails, caught); BF(o/r); SB(d)[BF(o/r) rejected, caught]; SB(g)[bottom-up walk(o); walk(o)]: return value of one function a '
              'JSON template (depth <= 2, width <= 2, all leaf kinds, symbolic leaves), versions map with a template value; '
              'output names from a legal-name list (spaces, non-ASCII, leading dot, quotes, backslash, newline); build, unchanged '
              'build (served from cache), clean; plus field-wise comparison of the Cache object written and the one read back; '
@@ -71,7 +71,9 @@ def op_same(a, b):
     """field-wise isomorphism of two operation records -> bool | SymBool"""
     if type(a) is not type(b):
         return False
-    conds = [L.eq(a.args, b.args, exact_types=True), L.eq(a.return_value, b.return_value, exact_types=True),
+    from .refmodel import json_norm
+    # (the in-memory record of a walk holds tuples, its JSON form lists: tuples and lists are the same JSON value)
+    conds = [L.eq(a.args, b.args, exact_types=True), L.eq(json_norm(a.return_value), json_norm(b.return_value), exact_types=True),
              a.is_finished == b.is_finished]
     if hasattr(a, 'name'):
         conds += [a.name == b.name, a.exception_type_str == b.exception_type_str]
@@ -203,6 +205,8 @@ def harness(eng, fam, P):
             ('SB', 'e', {}, [('Q', 'list_dir', 'o/q')]),
             ('BF', 'o/q', {'mode': 'ok', 'name': 'q'}, []),
             ('SB', 'f', {}, [('Q', 'list_dir', 'o/q')]),
+            # recorded directory walks in both orders over a tree with nested directories (o, o/d, o/e)
+            ('SB', 'g', {}, [('Q', 'walk_bu', 'o'), ('Q', 'walk', 'o')]),
             ('Q', 'is_file', t1)]
     full_body = body
     if fam == 'emptyforest':
